@@ -266,6 +266,27 @@ namespace verif
 
     Verdict run_case(const uint8_t* data, size_t size, Report& rep)
     {
+        if (fnv1a(data, size, 0xc17) % 16 == 0)
+        {
+            // three threads write and parse different cookies (different expiry dates) at the same moment
+            rep.label("three-threads-at-once");
+            std::string f = on_threads(3, [&](int t) -> std::string {
+                for (int i = 0; i < 120; ++i)
+                {
+                    Cookie k("n" + std::to_string(t), "v" + std::to_string(i));
+                    k.maxAge  = 100 * t + i;
+                    k.expires = FullDate(FullDate::time_point(std::chrono::duration_cast<std::chrono::system_clock::duration>(std::chrono::seconds(1000000000LL + 86400LL * 400 * t + i))));
+                    k.path    = std::string("/p") + std::to_string(t);
+                    std::ostringstream os;
+                    os << k;
+                    Cookie back = Cookie::fromString(os.str());
+                    if (back.name != k.name || back.value != k.value || !back.maxAge || *back.maxAge != *k.maxAge || !back.expires || back.expires->date() != k.expires->date() || !back.path || *back.path != *k.path)
+                        return std::string("thread ") + std::to_string(t) + ": cookie \"" + os.str() + "\" did not survive write and parse";
+                }
+                return "";
+            });
+            V_CHECK(f.empty(), "C17/concurrent-roundtrips", "three threads writing and parsing different cookies at the same moment: " + f);
+        }
         {
             static bool judged = false;
             if (!judged)
